@@ -11,7 +11,7 @@ Notation nd s n := (nodes s n).
 Arguments upd : simpl never.
 
 Definition active (x : pst) : bool := match qp x with Q1 | Q2 | Q3 => true | _ => false end.
-Definition stage_of (q : ppc) : nat := match q with Q1 => 2 | Q2 => 1 | _ => 0 end.
+Definition stage_of (q : ppc) : nat := match q with Q1 => 2 | Q2 | Q3 => 1 | _ => 0 end.
 Definition in_remove (k : kpc) : Prop := k = KR1 \/ k = KR2.
 Definition spinning (k : kpc) : Prop := k = KP1 false \/ k = KP1 true \/ k = KK1.
 
@@ -67,7 +67,7 @@ Record Inv2 (s : st) : Prop := {
   R3 : hnd (nd s 0) = false /\ forall n, 1 <= n -> n < nn s -> ret (nd s n) = false -> hnd (nd s n) = true;
   R4 : in_remove (kp s) -> hnd (nd s (kn s)) = true;
   R5 : forall n, n < nn s -> 1 <= stage (nd s n) ->
-         qn (P s (own (nd s n))) = n /\ (qp (P s (own (nd s n))) = Q1 \/ qp (P s (own (nd s n))) = Q2);
+         qn (P s (own (nd s n))) = n /\ (qp (P s (own (nd s n))) = Q1 \/ qp (P s (own (nd s n))) = Q2 \/ qp (P s (own (nd s n))) = Q3);
   RM : bad_mem s = false
 }.
 
